@@ -163,7 +163,7 @@ func TestC12(t *testing.T) {
 		rec.Rule("exhaustive: 64 squares x every subset s of the harness' own relevant-occupancy set (ray squares minus ray ends; 102400 rook + 5248 bishop subsets) x outside fillings o in {0, everything outside the relevant set, k pseudo-random fillings (k=4 quick, 256 thorough; seeded from VERIF_SEED)}: RookMoves/BishopMoves(sq, s|o) == ray walk on s|o (and the walk on s|o == the walk on s, i.e. outside squares never matter); king/knight 64 squares; pawn capture/push 64 singletons x 2 colours plus random sets (union over singletons); InBetween all 4096 pairs with end squares masked. Non-trivial = occupancy with at least one blocker strictly inside a ray / every leaper and pair case; distinct by (kind, square, occupancy)")
 		rec.Assume("geometry oracle: ray walker and offset lists written in the harness (checks/c12), independent of attacks/tables.go")
 		shard, n := evid.Shard()
-		k := evid.Pick(32, 512)
+		k := evid.Pick(32, 4096)
 		rng := evid.Seed() * 7919
 		fail := func(c Case) bool {
 			if err := checkCase(c); err != nil {
